@@ -2,9 +2,14 @@ from rsocket.helpers import DefaultPublisherSubscription
 
 
 class ErrorStream(DefaultPublisherSubscription):
+    _failed = False
 
     def __init__(self, exception: Exception):
         self._exception = exception
 
     def request(self, n: int):
+        if self._failed:
+            return  # every further request(n) would signal the error again
+
+        self._failed = True
         self._subscriber.on_error(self._exception)
